@@ -26,6 +26,18 @@ CLAIMED = {
          'follows the repaired code.',
     technique='Coq proof (induction over text, generic in the codec) over hand model; differential correspondence (tie B) under ASan',
     design='6/C12'),
+ 'C14': dict(
+    text='Theorem over a faithful array model of lz4::decompress (suffix cursor for the input, checked block reads/writes on an output array, '
+         'overrun_copy storing whole machine words): for ARBITRARY input bytes, output size and initial output content the decoder never reads '
+         'outside the input nor reads/writes outside the announced output size, and terminates.  Constants, align() and sizeof(unsigned long) '
+         'are regenerated from the header (tie A); the extracted model is run against the ASan build on valid encodings (greedy/random/overlapping/'
+         '255-chains), output/input size +-1, guard-targeted mutants, boundary blocks and garbage tails, with an independent strict reference '
+         'decoder as oracle for exactness and completeness (tie B).',
+    note='Trusted: Coq kernel; cxx2v/gen_src; extraction + driver; harness impl_lz4.cpp; Python encoder/reference decoder used as oracle; ASan. '
+         'Two defects found by this check were repaired by fix: commits (match-length wrap, lenient tail). Exactness w.r.t. the reference is '
+         'currently established differentially (oracle), the memory-safety clause by proof; API-level transparency is covered through C10.',
+    technique='Coq proof (invariant over decoder loop) over hand model; translator-regenerated constants/align (tie A); differential correspondence + reference-decoder oracle (tie B)',
+    design='6/C14'),
  'C20': dict(
     text='Machine-checked theorems (Coq 8.16) over a model of gr_str_to_tag / gr_tag_to_str / zeropad for ALL C strings and ALL '
          '32-bit tags: value = big-endian of the first min(4,len) bytes, no read beyond the NUL (checked reads on the exact region), '
